@@ -44,7 +44,13 @@ def cmd_check(pid: str, tier: str, seed: int) -> int:
 
         traceback.print_exc()
         error = f"checker crashed: {type(exc).__name__}: {exc}"
-    if error is None and tier == "thorough" and ctx is not None and not ctx.violations:
+    new_viol = []
+    if ctx is not None:
+        from .core import load_known_findings, match_known
+
+        known = load_known_findings()
+        new_viol = [o for o in ctx.violations if match_known(o, pid, known) is None]
+    if error is None and tier == "thorough" and ctx is not None and not new_viol:
         from .selftest import run_selftest
 
         st = run_selftest([pid], jobs=int(os.environ.get("PVS_JOBS", "16")), seed=seed, quiet=True).get(pid)
